@@ -196,7 +196,7 @@ func tHTMLCmt(c context, s []byte) (context, int) {
 
 var (
 	specialTagEndPrefix = []byte("</")
-	tagEndSeparators    = []byte("> \t\n\f/")
+	tagEndSeparators    = []byte("> \t\n\f\r/")
 )
 
 // tSpecialTagEnd is the context transition function for raw text, RCDATA
